@@ -12,6 +12,12 @@
      dup v        plugin->duplicate / lyd_dup_*: the copy takes its own reference per owned string
      free v       plugin->free / lyd_free_*: one reference per owned string is released
      temp v       store, then the validation fails: what store took is released before returning (lyd_value_validate)
+     update h v'  lyd_new_path(LYD_NEW_PATH_UPDATE) / lyd_change_term / lyd_change_meta / lyd_any_copy_value: a temporary value v'
+                  is built and compared with the value of h; equal: the temporary is freed, nothing changes; different: the
+                  old value is freed and h holds the new one
+     resolve h t v'  validation of a union value whose recorded member does not resolve: a temporary t (the value of the
+                  recorded member, printed to get its text) is created and freed again, then the value is stored as another
+                  member: the old value is freed, h holds v'
      chain ops    lyd_free_meta_single / lyd_free_attr_single (element k of a chain) and ..._siblings (from k on) *)
 From LY Require Import Base.
 Local Open Scope N_scope.
@@ -45,7 +51,29 @@ Inductive oop :=
 | OStore (v : value)            (* a new value *)
 | ODup (h : nat)                (* duplicate the value of handle h *)
 | OFree (h : nat)               (* free the value of handle h *)
-| OTemp (v : value).            (* store v, fail its validation, release it again *)
+| OTemp (v : value)             (* store v, fail its validation, release it again *)
+| OUpdate (h : nat) (v' : value)            (* update the value of handle h to v' *)
+| OResolve (h : nat) (t v' : value).        (* re-resolve the union value of handle h: temporary t, new member value v' *)
+
+(* values are compared by what they own (the library compares canonical values) *)
+Fixpoint refs_eqb (a b : list bytes) : bool :=
+  match a, b with
+  | [], [] => true
+  | x :: a', y :: b' => beq_bytes x y && refs_eqb a' b'
+  | _, _ => false
+  end.
+
+Fixpoint set_handle {A} (l : list (option A)) (n : nat) (x : option A) : list (option A) :=
+  match l, n with
+  | [], _ => []
+  | _ :: l', O => x :: l'
+  | y :: l', S n' => y :: set_handle l' n' x
+  end.
+
+(* the old value v of handle h is replaced by v' (already stored): v is freed *)
+Definition replace_value (s : ost) (h : nat) (v v' : value) (d1 : dict) : ost :=
+  let de := rel_all (d1, o_err s) (refs v) in
+  mkost (fst de) (snd de) (o_mis s) (set_handle (o_h s) h (Some v')).
 
 Fixpoint set_none {A} (l : list (option A)) (n : nat) : list (option A) :=
   match l, n with
@@ -72,6 +100,23 @@ Definition ostep (s : ost) (o : oop) : ost :=
   | OTemp v =>
       let de := rel_all (acq_all (o_dict s) (refs v), o_err s) (refs v) in
       mkost (fst de) (snd de) (o_mis s) (o_h s)
+  | OUpdate h v' =>
+      match nth_error (o_h s) h with
+      | Some (Some v) =>
+          let d1 := acq_all (o_dict s) (refs v') in           (* the temporary *)
+          if refs_eqb (refs v) (refs v') then
+            let de := rel_all (d1, o_err s) (refs v') in      (* equal: the temporary is freed *)
+            mkost (fst de) (snd de) (o_mis s) (o_h s)
+          else replace_value s h v v' d1                      (* different: the values are switched, the old one is freed *)
+      | _ => mkost (o_dict s) (o_err s) (o_mis s + 1) (o_h s)
+      end
+  | OResolve h t v' =>
+      match nth_error (o_h s) h with
+      | Some (Some v) =>
+          let de := rel_all (acq_all (o_dict s) (refs t), o_err s) (refs t) in      (* temporary of the recorded member *)
+          replace_value (mkost (fst de) (snd de) (o_mis s) (o_h s)) h v v' (acq_all (fst de) (refs v'))
+      | _ => mkost (o_dict s) (o_err s) (o_mis s + 1) (o_h s)
+      end
   end.
 
 Definition orun (s : ost) (ops : list oop) : ost := fold_left ostep ops s.
@@ -113,6 +158,23 @@ Definition ostep_dup_shared (s : ost) (h : nat) : ost :=
 (* a failing validation that forgets the stored temporary *)
 Definition ostep_temp_leaked (s : ost) (v : value) : ost :=
   mkost (acq_all (o_dict s) (refs v)) (o_err s) (o_mis s) (o_h s).
+(* an update with an equal value that forgets the temporary (lyd_new_path_update on an any node) *)
+Definition ostep_update_same_leaked (s : ost) (h : nat) (v' : value) : ost :=
+  match nth_error (o_h s) h with
+  | Some (Some v) =>
+      let d1 := acq_all (o_dict s) (refs v') in
+      if refs_eqb (refs v) (refs v') then mkost d1 (o_err s) (o_mis s) (o_h s) else replace_value s h v v' d1
+  | _ => mkost (o_dict s) (o_err s) (o_mis s + 1) (o_h s)
+  end.
+(* a re-resolution that frees the temporary of the recorded member only when its text was not printed dynamically *)
+Definition ostep_resolve_leaked (s : ost) (h : nat) (t v' : value) (dynamic : bool) : ost :=
+  match nth_error (o_h s) h with
+  | Some (Some v) =>
+      let d1 := acq_all (o_dict s) (refs t) in
+      let de := if dynamic then (d1, o_err s) else rel_all (d1, o_err s) (refs t) in
+      replace_value (mkost (fst de) (snd de) (o_mis s) (o_h s)) h v v' (acq_all (fst de) (refs v'))
+  | _ => mkost (o_dict s) (o_err s) (o_mis s + 1) (o_h s)
+  end.
 (* free of element k that drops the tail of the chain without freeing it *)
 Definition free_single_drop_tail (de : dict * N) (ch : list value) (k : nat) : option (dict * N * list value) :=
   match chain_take k ch with
@@ -123,7 +185,8 @@ Definition free_single_drop_tail (de : dict * N) (ch : list value) (k : nat) : o
 (* ---- projection of an API script (impl/t_own.c) onto the model, for the correspondence component own-delta ----
    Command i of a script is one of: 0 = a call that may hand a new value to the caller (parse, new_*, dup, diff, ...),
    1 = a call that only uses temporaries (validate / compare / print / find, or any call that fails), 2 = a call that
-   duplicates what the previous command made.  The value of command i owns the strings [i] and, nested, [i; i].  At the end
+   duplicates what the previous command made, 3 = an update-style call on it (new_path with LYD_NEW_PATH_UPDATE, change_term,
+   change_meta, any_copy_value), 4 = a validation that re-resolves it.  The value of command i owns the strings [i] and, nested, [i; i].  At the end
    of a case the driver frees everything the caller holds.  The prediction is the dictionary delta (sum over the strings the
    script can own) and the number of not-found errors. *)
 Definition cmd_value (i : N) : value := Val [[i]] [Val [[i; i]] []].
@@ -136,7 +199,10 @@ Fixpoint script_ops (kinds : list N) (i : N) (nh : nat) : list oop :=
       else if k =? 1 then OTemp (cmd_value i) :: script_ops ks (i + 1) nh
       else match nh with
            | O => OStore (cmd_value i) :: script_ops ks (i + 1) (S nh)
-           | S p => ODup p :: script_ops ks (i + 1) (S nh)
+           | S p =>
+               if k =? 2 then ODup p :: script_ops ks (i + 1) (S nh)
+               else if k =? 3 then OUpdate p (cmd_value i) :: script_ops ks (i + 1) nh
+               else OResolve p (Val [[i]] []) (cmd_value i) :: script_ops ks (i + 1) nh
            end
   end.
 
